@@ -2365,10 +2365,54 @@ def evaluate_simple(sc, expect_ok):
             sc.fail('outcome', 'request notified with the wrong outcome', tag=tag, notes=ns, want=expect_ok[tag])
 
 
+def status_sweep(ctx):
+    """every error status 1..255 (whatever tables the library has for them) in the reply to the first, a middle and the
+    last chunk of a three-chunk read and write - independent of the seed: the request fails with exactly one failure
+    notification, nothing raises, what was acknowledged before is on the device, and the next request is served"""
+    rng = ctx.rng
+    classes = [1, 2, 7, 8, 12, 13, 17, 22, 127, 128, 254, 255]
+    todo = [(st, st % 3) for st in range(1, 256)] + [(st, j) for st in classes for j in range(3)]
+    for kind in ('r', 'w'):
+        for st, j in todo:
+            sc = Scenario(ctx, rng, {'kind': 'read' if kind == 'r' else 'write', 'chunks': 3, 'error_status': st, 'in_reply_to_chunk': j})
+            h, dev = sc.h, sc.h.dev
+            a = 9
+            base = bytes(dev.mems[1].data)
+            if kind == 'r':
+                dev.force_status(4, 1, bytes([1]) + struct.pack('<I', a + 20 * j), st, times=1)
+                t1 = sc.read(1, a, 55)
+            else:
+                d = bytes(rng.randrange(256) for _ in range(70))
+                dev.force_status(4, 2, bytes([1]) + struct.pack('<I', a + 25 * j), st, times=1)
+                t1 = sc.write(1, a, d)
+            g = 0
+            while h.inflight and g < 20:
+                sc.deliver(0, keep=False)
+                g += 1
+            evaluate_simple(sc, {t1: 'RF' if kind == 'r' else 'WF'})
+            if kind == 'w':
+                img = bytearray(base)
+                img[a:a + 25 * j] = d[:25 * j]
+                if bytes(dev.mems[1].data) != bytes(img):
+                    sc.fail('write-exact', 'after a write that failed at chunk %d the device memory is not the acknowledged prefix' % j, status=st)
+            del dev.forced[:]
+            t2 = sc.read(1, a, 21) if kind == 'r' else sc.write(1, a, bytes(range(30)))
+            while h.inflight:
+                sc.deliver(0, keep=False)
+            if [x[:2] for x in sc.notes.get(t2, [])] != (['RO'] if kind == 'r' else ['WO']):
+                sc.fail('next-request-served', 'a request issued after a request that failed with status %d is not served' % st, notes=sc.notes.get(t2))
+            ctx.count('search:status-sweep')
+            if sc.bad:
+                return True
+    return False
+
+
 def systematic_search(ctx):
     """deterministic boundary scenarios: every chunk count, an error status at every chunk, a queue behind the failing
     write, every reply duplicated, link drop after every k-th reply; judged by the spec twin"""
     rng = ctx.rng
+    if status_sweep(ctx):
+        return True
     for n in WRITE_LENS[:9]:
         chunks = max(1, -(-n // 25))
         for j in list(range(chunks)) + [None]:
